@@ -20,6 +20,7 @@ EXPLANATION = (
     "sets `done` and returns Ready(None) in the same call without polling anything or taking the row (buffered items are left "
     "to the destructor: C02.ZIP); every Ready(None) return sits on such an edge; (EXT) StreamExt::zip builds (self, other).")
 EXPLANATION += (' (CTOR) the entry point stores operand K, converted by into_stream only, as the input of position K.')
+EXPLANATION += (" (UTIL) vec_assume_init hands back the argument's own elements in place (ptr::read of the argument, or from_raw_parts(pointer, length, capacity) of the argument in that order, or the element-wise map); the utils::pin helpers are the standard slice / Vec accessors of their argument re-pinned element-wise.")
 ASSUMPTIONS = [
     "Iterator::all over the state slice visits every slot (library model)",
     "C02.ZIP: buffered items of an incomplete row are dropped by the destructor, never yielded",
